@@ -102,7 +102,7 @@ theorem winv_step {cfg : Cfg} (hc : cfg.consumeSeqOnJournalError = true) {s : St
     simp only [step, stepWriter] at hs
     split at hs
     · rename_i hg
-      obtain ⟨_, hwi, hrecs⟩ := hg
+      obtain ⟨_, hwi, hrecs, _⟩ := hg
       rw [hwi] at hw hws hm1 hm3
       simp only at hw
       have hgfin : (⟨s.seq + 1, recs, sync⟩ : Grp).fin = s.seq + 1 + recs.length := rfl
@@ -443,6 +443,11 @@ theorem winv_step {cfg : Cfg} (hc : cfg.consumeSeqOnJournalError = true) {s : St
   | exit => cases ha
   | recOpen => cases ha
   | recStep => cases ha
+  | compactStart _ => cases ha
+  | trBegin => cases ha
+  | trPut _ => cases ha
+  | trCommit => cases ha
+  | trDiscard => cases ha
 
 
 theorem winv_reachable {cfg : Cfg} (hc : cfg.consumeSeqOnJournalError = true) {sd : St × Disk}
